@@ -463,6 +463,9 @@ func (e *FnEnc) applyContract(c *FuncContract, calleeName string, calleePkg *typ
 		}
 	}
 	for _, en := range c.Ensures {
+		if strings.HasSuffix(en.Label, "!bv") && e.sorter.mode != ModeBV {
+			continue // bit-level clause: not used by callers encoded with mathematical integers (fewer assumptions)
+		}
 		t := wrap(en, func() string { return post.eval(en.E).L[0] })
 		e.flushFacts()
 		e.assume(t)
